@@ -38,6 +38,10 @@ struct Case {
     /// clean output directory in between)
     #[serde(default)]
     in_place: bool,
+    /// run k goes through the other entry point (CLI <-> build script) where the layout
+    /// serves both with one configuration
+    #[serde(default)]
+    other_entry: Vec<bool>,
     flags: Vec<String>,
     // edit workload
     edit_kind: String,
@@ -396,6 +400,18 @@ impl Check for C13 {
         } else {
             (None, None)
         };
+        let mut cfg = cfg;
+        if setup.conf != ConfSrc::Flags && (i / 8) % 3 == 0 {
+            // a mapping that names a type the project defines itself
+            let local = model.serde_type_names();
+            if !local.is_empty() {
+                let mut xr = r.split("local-mapping");
+                cfg.mappings.insert(xr.pick(&local).clone(), xr.pick(&["string", "number"]).to_string());
+            }
+        }
+        let (setup_cwd, setup_conf) = (setup.cwd, setup.conf);
+        // flag overrides exist on the CLI only: such a configuration cannot be shared
+        let cfg_plain_for_both = cfg.file_mode.is_none() && !cfg.flag_visualize && cfg.file_out.is_none();
         let real_bin = tier == Tier::Thorough && !edit_case && setup.entry == Entry::Cli && i % 16 == 0;
         serde_json::to_value(Case {
             kind: if edit_case { "edit".into() } else { "sched".into() },
@@ -408,6 +424,15 @@ impl Check for C13 {
             viz,
             relocate,
             in_place: !edit_case && !viz_mixed && i % 4 == 2,
+            other_entry: (0..s)
+                .map(|k| {
+                    k > 0
+                        && !edit_case
+                        && cfg_plain_for_both
+                        && matches!((setup_cwd, setup_conf), (crate::world::Cwd::SrcTauri, ConfSrc::Tauri) | (crate::world::Cwd::SrcTauri, ConfSrc::Standalone) | (crate::world::Cwd::App, ConfSrc::Standalone))
+                        && k % 3 == 1
+                })
+                .collect(),
             flags,
             edit_kind,
             real_bin,
@@ -445,7 +470,13 @@ impl Check for C13 {
                 } else {
                     w.clone()
                 };
-                let res = forced_run_opt(env, &w_run, &c.setup, &c.cfg, c.procs[k].clone(), c.verbose[k], c.viz[k], !(c.in_place && k > 0));
+                let mut setup_k = c.setup.clone();
+                if c.other_entry.get(k).copied().unwrap_or(false) {
+                    setup_k.entry = if setup_k.entry == Entry::Cli { Entry::Build } else { Entry::Cli };
+                    co.count("runs_through_the_other_entry_point", 1);
+                }
+                let verbose_k = c.verbose[k] && setup_k.entry == Entry::Cli;
+                let res = forced_run_opt(env, &w_run, &setup_k, &c.cfg, c.procs[k].clone(), verbose_k, c.viz[k], !(c.in_place && k > 0));
                 if moved {
                     std::fs::rename(&w_run.root, &w.root).expect("move world back");
                 }
@@ -612,6 +643,9 @@ impl Check for C13 {
                     d.viz.remove(drop);
                     if drop < d.relocate.len() {
                         d.relocate.remove(drop);
+                    }
+                    if drop < d.other_entry.len() {
+                        d.other_entry.remove(drop);
                     }
                     out.push(d);
                 }
